@@ -12,13 +12,13 @@ import (
 func C09(p *Prog, r *Run) {
 	r.Explanation = "Decided: the formulas the statement names, as origins of the stored values - an organism's expected offspring is its fitness divided by (sum of all fitness / number of organisms), computed after every species' adjustFitness, whose last write to the fitness is the division by the species size, whose parent count is int(floor(SurvivalThresh*n + 1)) and which marks exactly the organisms at positions >= that count of the list sorted best-first; countOffspring adds floor(e) per organism to the quota and mod(e,1) to the carried fraction, moves whole units of the fraction to the quota, and returns both; the fraction is threaded through the species in order starting from zero; zero-quota species are removed before reproduction and marked organisms are removed from both lists; plus the conservation, pipeline and one-baby-per-quota-unit obligations shared with C02. Not decided: the numeric claims (proportionality, 'differs by less than one', totals under floating-point rounding)."
 	r.Rule("C09.1", "pipeline order, one baby per quota unit, conservation of the total under stolen babies and delta coding (shared with C02)", func() {
-		r.epochPipeline()
+		r.epochPipeline(false)
 		r.babiesPerQuota()
 		r.conservation()
 	})
 	r.Rule("C09.2", "formulas: expected offspring = fitness / population mean; fitness shared by species size last; parent count floor(thresh*n+1); marked = positions >= parent count of the best-first list; floor + carried fraction per species", func() {
 		r.c09ExpectedOffspring()
-		r.c09AdjustFitness()
+		r.c09AdjustFitness(false)
 		r.c09CountOffspring()
 	})
 	r.Rule("C09.3", "organisms marked for elimination are removed from their species and from the master list before reproduction", func() {
@@ -106,7 +106,7 @@ func (r *Run) c09ExpectedOffspring() {
 		fmt.Sprintf("an organism's expected offspring is %s; expected its fitness divided by the mean fitness of all organisms, for every organism (shape ok=%v mean ok=%v all organisms=%v)", vt, ok, okMean, okAll))
 }
 
-func (r *Run) c09AdjustFitness() {
+func (r *Run) c09AdjustFitness(boundOnly bool) {
 	p := r.P
 	fn := p.Func(PkgG, "Species.adjustFitness")
 	r.Fn(FuncName(fn))
@@ -146,7 +146,9 @@ func (r *Run) c09AdjustFitness() {
 		okShare = vt.Op == "bin" && vt.Name == "/" && vt.Args[0].String() == "recv.Organisms[*].Fitness" && vt.Args[1].String() == "float64(len(recv.Organisms))" &&
 			loopRangesOver(tm, InnermostLoop(loops, share.Block()), "recv.Organisms")
 	}
-	r.Check(okShare, "adjustFitness.share", p.Pos(fn.Pos()), "the last fitness update of every organism is the division by the species size", "the fitness of every organism is not finally divided by the number of organisms of its species")
+	if !boundOnly {
+		r.Check(okShare, "adjustFitness.share", p.Pos(fn.Pos()), "the last fitness update of every organism is the division by the species size", "the fitness of every organism is not finally divided by the number of organisms of its species")
+	}
 	// sort best-first after the loop, before the marking
 	var sortCall ssa.CallInstruction
 	for _, c := range CallsNamed(fn, "sort.Sort") {
@@ -197,6 +199,22 @@ func (r *Run) c09AdjustFitness() {
 				okOrder = okOrder && sl != nil && sl.Header.Dominates(sortCall.Block()) && !sl.Blocks[sortCall.Block()]
 			}
 		}
+	}
+	if boundOnly {
+		// C02 needs only that marking cannot run off the list, whatever the parent count is
+		okB := false
+		if len(marks) == 1 {
+			if l := InnermostLoop(loops, marks[0].Block()); l != nil {
+				if iff, ok := l.Header.Instrs[len(l.Header.Instrs)-1].(*ssa.If); ok {
+					ct := tm.Of(iff.Cond)
+					at := tm.Of(marks[0].Addr)
+					okB = ct.Op == "bin" && ct.Name == "<" && ct.Args[1].String() == "len(recv.Organisms)" && at.Args[0].Op == "elem" && at.Args[0].Args[0].String() == "recv.Organisms" &&
+						len(at.Args[0].Args) > 1 && at.Args[0].Args[1].V == iff.Cond.(*ssa.BinOp).X
+				}
+			}
+		}
+		r.Check(okB, "adjustFitness.marking-in-bounds", p.Pos(fn.Pos()), "marks Organisms[c] only while c < len(Organisms)", "the loop that marks organisms for elimination is not bounded by the length of the organism list: a survival threshold of 1.0 makes the epoch fail")
+		return
 	}
 	r.Check(okParents, "adjustFitness.parent-count", p.Pos(fn.Pos()), "parents = int(floor(SurvivalThresh * n + 1))", "the number of organisms that remain available as parents is not int(floor(SurvivalThresh*n + 1))")
 	r.Check(okMark, "adjustFitness.marking", p.Pos(fn.Pos()), "exactly the positions parents, parents+1, ..., n-1 are marked", "the organisms marked for elimination are not exactly those at positions >= the parent count")
